@@ -337,6 +337,8 @@ func runC06(c *Check) {
 	ruleSubmitHelper(c, p)
 	rulePendingRange(c, p)
 	ruleBlobProvenance(c, p)
+	c.Doc("C06-R8", "EO: a submission loop passes over a tick without reading its pending list only if its own tracker reports empty.")
+	ruleLoopSkipsOnlyWhenOwnTrackerEmpty(c, p, "C06-R8")
 }
 
 func firstPath(m map[string][]*Node, except string) []*Node {
@@ -776,6 +778,8 @@ func runC08(c *Check) {
 			"pending data without transactions is neither submitted nor acknowledged: on an idle chain the pending-data count grows by one per (empty) block until any limit >= 1 is reached, and production is refused for good", g, path)
 	}
 	c.MinInstances("C08-R2", 1)
+	c.Doc("C08-R3", "EO: a submission loop passes over a tick without reading its pending list only if its own tracker reports empty (otherwise pending items never leave the count and the limit is never released).")
+	ruleLoopSkipsOnlyWhenOwnTrackerEmpty(c, p, "C08-R3")
 }
 
 // ---------------------------------------------------------------------------------------------
@@ -964,4 +968,52 @@ func runC07(c *Check) {
 		}
 	}
 	c.MinInstances("C07-R5", 4)
+}
+
+// ruleLoopSkipsOnlyWhenOwnTrackerEmpty (C06-R8 / C08-R3): in a submission loop a tick may be
+// passed over without reading the pending list only if the tracker *whose list the loop reads*
+// reports empty (or on cancellation).
+func ruleLoopSkipsOnlyWhenOwnTrackerEmpty(c *Check, p *Prog, rule string) {
+	for _, l := range []string{"HeaderSubmissionLoop", "DataSubmissionLoop"} {
+		root := p.MustFunc(mgrM(l))
+		g := BuildECFG(p, root, ExpandOpts{MaxDepth: 4})
+		c.NoteGraph(g)
+		fn := fnName(root)
+		getter := g.Select(func(n *Node) bool {
+			return genericName(CallName(n)) == "(*"+rootPath+"/block.pendingBase[_]).getPending"
+		})
+		if len(getter) == 0 {
+			c.Unk(rule, l+" ⟂ reads-own-tracker", fn, "", "anchor lost: the loop does not read a pending list")
+			continue
+		}
+		// the tracker: receiver path of the getter, e.g. m.pendingData.base
+		tracker := RecvTerm(getter[0]).String()
+		ticks := selectCaseEdges(g, func(t *Term) bool { return t.Op == "field" && t.Name == "C" })
+		var sels []*Node
+		for _, n := range g.Nodes {
+			if _, ok := n.In.(*ssa.Select); ok && n.Ctx.Depth == 0 && g.Live()[n] {
+				sels = append(sels, n)
+			}
+		}
+		if len(ticks) == 0 || len(sels) == 0 {
+			c.Unk(rule, l+" ⟂ tick", fn, "", "anchor lost: no ticker case in the loop's select")
+			continue
+		}
+		ownEmpty := g.Select(EdgeWhere(func(t *Term, pol bool, n *Node) bool {
+			t, pol = normFact(t, pol)
+			if !pol || t.Op != "call" || n.Ctx.Depth != 0 {
+				return false
+			}
+			// X.isEmpty() where X.base is the tracker
+			if !strings.HasSuffix(t.Name, ").isEmpty") || len(t.Args) == 0 {
+				return false
+			}
+			return strings.HasPrefix(tracker, t.Args[0].String()+".") || tracker == t.Args[0].String()
+		}))
+		path := g.PathAvoiding(ticks, orPred(nodeSet(sels), g.AnyExit()), orPred(nodeSet(getter), nodeSet(ownEmpty)))
+		c.Decide(rule, l+" ⟂ tick-skipped-only-if-own-tracker-empty", fn, p.InstrPos(getter[0].In),
+			"a tick is passed over without reading "+tracker+" only when that tracker reports empty",
+			"the loop can pass over a tick without looking at its pending list although that list ("+tracker+") is not empty — e.g. it tests another tracker: items stay pending, and with a pending limit block production is refused for good", g, path)
+	}
+	c.MinInstances(rule, 2)
 }
